@@ -84,6 +84,7 @@ FromJsonU(u) == CASE u.k = "cls" -> UCls(ToSet(u.s), u.neg)
                   [] u.k \in {"cat", "alt"} -> [k |-> u.k, a |-> FromJsonU(u.a), b |-> FromJsonU(u.b)]
                   [] u.k = "rep" -> URep(FromJsonU(u.a), u.min, u.max, u.g)
                   [] u.k = "grp" -> UGrp(FromJsonU(u.a), u.cap)
+                  [] u.k = "nou" -> UNoU(FromJsonU(u.a))
                   [] OTHER -> u
 UserSem(pt) == Norm(Wrapped(Joined([i \in 1..Len(pt.user) |-> FromJsonU(pt.user[i])]), pt.o))
 
